@@ -21,7 +21,7 @@ Requirements for the change:
 - The package must still import, and the existing test suite must still pass: on the unmodified tree exactly these 3 tests fail and nothing else: test_functional_algorithms.py::test_myhypot_xla_client, ::test_myhypot_cpp, ::test_safe_min_xla_client; with your change the set of failing tests must be the same. The full suite takes long; run it as
     cd {wt} && /venv/bin/python -m pytest -q -p no:cacheprovider --timeout=900 --continue-on-collection-errors -n 4 -x --deselect functional_algorithms/tests/test_functional_algorithms.py::test_myhypot_xla_client --deselect functional_algorithms/tests/test_functional_algorithms.py::test_myhypot_cpp --deselect functional_algorithms/tests/test_functional_algorithms.py::test_safe_min_xla_client
   (about 10-15 minutes; run the test files closest to your change first, the full suite once at the end). If a test fails, pick a different change.
-- Write a demonstration {wt}/demo.py: a standalone script (run as `cd <tree> && /venv/bin/python demo.py`) that exits 0 and prints PASS when the property holds on what it exercises, and exits 1 printing FAIL with the offending input/sequence when it does not. It must FAIL with your change and PASS on the unmodified tree (check both: `git stash` / `git stash pop`, keeping demo.py untracked).
+- Write a demonstration {wt}/demo.py: a standalone script (run as `cd <tree> && /venv/bin/python demo.py`) that exits 0 and prints PASS when the property holds on what it exercises, and exits 1 printing FAIL with the offending input/sequence when it does not. It must FAIL with your change and PASS on the unmodified tree (check both WITHOUT `git stash` -- the stash is shared between worktrees of other people working in parallel: use `git diff > patch.diff && git apply -R patch.diff`, run the demo, then `git apply patch.diff`).
 - Leave the change uncommitted in the worktree (so `git diff` shows it), and also write it to {wt}/patch.diff with `git diff > patch.diff` (only package source files in the diff, not demo.py).
 
 When done, reply with: (1) the one-paragraph description of the change and why it breaks the property, (2) what is needed for it to manifest, (3) the exact commands you ran and their outcomes (test suite result with the change, demo with and without the change). Be honest if something could not be achieved.""")
